@@ -3,5 +3,13 @@
 # fire on a broken variant.
 CLAIMS = {}
 
+def claim(pid, text, note, technique):
+    CLAIMS[pid] = {"text": text, "note": note, "technique": technique}
+
+claim("C11",
+ "Static, exhaustive over the source: decides the structural necessary conditions M1-M5 of the property for every execute method and every rule set (fresh result map dominates all executions/returns; every RuleEntity.Execute call site records (own RuleName, own value) under its own returned-flag and nowhere else; the returned-flag is true only for a return statement that evaluated successfully and is cleared by the recover at the rule entry; zero value maps to nil; the map is written only in addResult under g.lock). It does not compute values. Right level because the property quantifies over all rule sets, models and call sequences, which the rules cover by covering every code path that can write the map.",
+ "Trusted: go/types + go/ssa (x/tools v0.29.0), Go memory model for sync.Mutex, reflect. Decides code shape, not runtime values; 'other' = sound structural necessary conditions, not a full functional proof.",
+ "dominance + path + guard analysis over go/ssa (naive form) of the 21 Gengine.Execute* methods and the (value,error,flag) evaluators; lockset check of addResult")
+
 _PENDING = "static check designed (DESIGN.md section 6) but not yet built/validated in this round; not claimed until its rules are exact"
 NOT_APPLICABLE = {f"C{i:02d}": _PENDING for i in range(1, 21)}
